@@ -464,6 +464,19 @@ func runExec(cfg *config) {
 				d.load(genNarrow(rr, w.n, w.w, rr.Range(0, 6)))
 			}
 			execNarrowJoinQueries(d, rr)
+			if n == 1 {
+				// joins of more than 4096 row pairs, outer sizes in every residue class mod 4 and mod 8 (ninth seeded
+				// round: a join split over worker goroutines above a size threshold that dropped the trailing outer rows)
+				sizes := [][2]int{{70, 64}, {65, 66}, {67, 63}, {129, 33}}
+				sz := sizes[rr.Intn(len(sizes))]
+				d.load(genNarrow(rr, "big1", 3, sz[0]))
+				d.load(genNarrow(rr, "big2", 3, sz[1]))
+				for _, jt := range []string{"JOIN", "LEFT JOIN", "RIGHT JOIN"} {
+					d.query("SELECT big1.id, big2.id FROM big1 "+jt+" big2 ON big1.id = big2.id", "exact", "join-large")
+				}
+				d.query("SELECT big2.id, big1.id FROM big2 LEFT JOIN big1 ON big1.id = big2.id AND big1.id >= 60", "exact", "join-large")
+				d.query("SELECT x.id, y.id FROM big1 x JOIN big1 y ON x.id = y.id", "exact", "join-large")
+			}
 		}
 		if modes["agg"] {
 			execAggQueries(d, rr, t1, t2, nullable)
